@@ -451,7 +451,10 @@ impl<T: Clone + Eq + Debug + Default> WrappedBlock<T> {
 
         let mut lineleft = self.width - self.line.len;
         for element in self.word.remove_items() {
-            if let Str(piece) = element {
+            if !element.has_content() {
+                // Keep zero-width markers (fragment starts) with the word.
+                self.line.push(element);
+            } else if let Str(piece) = element {
                 let w = piece.width();
                 let mut wpos = 0; // Width of already-copied pieces
                 let mut bpos = 0; // Byte position of already-copied pieces
